@@ -55,3 +55,6 @@ pub assume_specification<T, E, U, D, F> [std::result::Result::<T, E>::map_or_els
         r is Err ==> call_requires(default, (r->Err_0,)),
     ensures
         match r { Ok(t) => call_ensures(f, (t,), u), Err(e) => call_ensures(default, (e,), u) };
+
+pub assume_specification<T, A: std::alloc::Allocator> [std::collections::VecDeque::<T, A>::is_empty] (q: &std::collections::VecDeque<T, A>) -> (r: bool)
+    ensures r == (q@.len() == 0);
